@@ -248,6 +248,8 @@ def run_predict(req):
     n, k, model, branch, nq, batches = cfg["n"], cfg["k"], cfg["model"], cfg["branch"], cfg["nq"], cfg["batches"]
     T = req["T"]
     st = req["st"]
+    rows = list(cfg.get("idx") or range(n))
+    qrows = list(cfg.get("qidx") or range(n, n + nq))
 
     def build(cls, **kw):
         opf = cls(**kw)
@@ -266,7 +268,7 @@ def run_predict(req):
 
     def build_sup(rel=None):
         o = build(SupervisedOPF)
-        X, I = data(list(range(n)))
+        X, I = data(rows)
         gg = Subgraph(X, np.zeros(n, dtype=int), I)
         gg.idx_nodes = [int(x) for x in st["order"]]
         for i in range(n):
@@ -284,12 +286,12 @@ def run_predict(req):
             fresh = []
             for q in range(nq):
                 o2, _ = build_sup()
-                Xq, Iq = data([n + q])
+                Xq, Iq = data([qrows[q]])
                 fresh.append(int(o2.predict(Xq, Iq)[0]))
         opf, g = build_sup(st.get("rel"))
     else:
         opf = build(KNNSupervisedOPF, max_k=k) if model == "knn" else build(UnsupervisedOPF, min_k=1, max_k=k)
-        g, _ = _graph(branch, n, T, [0] * n)
+        g, _ = _graph(branch, n, T, [0] * n, idx=rows)
         g.best_k = k
         g.constant = st["const"]
         g.min_density = st["mind"]
@@ -303,7 +305,7 @@ def run_predict(req):
     opf.subgraph = g
     results = []
     for b in batches:
-        Xq, Iq = data([n + q for q in b])
+        Xq, Iq = data([qrows[q] for q in b])
         r = opf.predict(Xq, Iq)
         if model == "uns":
             results.append([[int(x) for x in r[0]], [int(x) for x in r[1]]])
@@ -321,7 +323,7 @@ def run_predict(req):
         for bi, b in enumerate(batches):
             for pos, q in enumerate(b):
                 lab, _ = out_of(bi, pos)
-                vals = [max(st["cost"][t], T[t][n + q]) for t in range(n)]
+                vals = [max(st["cost"][t], T[rows[t]][qrows[q]]) for t in range(n)]
                 mn = min(vals)
                 if lab not in [int(st["plab"][t]) for t in range(n) if vals[t] == mn]:
                     bad.append("prediction-is-an-exhaustive-minimiser[b%d,p%d]" % (bi, pos))
@@ -341,7 +343,7 @@ def run_predict(req):
         for bi, b in enumerate(batches):
             for pos, q in enumerate(b):
                 lab, cl = out_of(bi, pos)
-                d = [T[n + q][t] for t in range(n)]
+                d = [T[qrows[q]][rows[t]] for t in range(n)]
                 ok = False
                 for N in itertools.combinations(range(n), kk):
                     rest = [t for t in range(n) if t not in N]
